@@ -4,6 +4,7 @@ package vgen
 
 import (
 	"reflect"
+	"unicode/utf8"
 
 	"github.com/openconfig/ygot/ygot"
 	"github.com/openconfig/ygot/ytypes"
@@ -15,6 +16,7 @@ func c01Tree() *V_C {
 	switch symChoose("class", 13) {
 	case 0: // string, enum, identityref leaves
 		s := symString("cfg", 2)
+		symAssume(utf8.ValidString(s)) // YANG strings are Unicode
 		c.Cfg = &s
 		c.Col = []E_V_Colour{V_Colour_RED, V_Colour_GREEN, V_Colour_BLUE}[symChoose("col", 3)]
 		c.Idr = []E_V_BASE_ID{0, V_BASE_ID_ID_A, V_BASE_ID_ID_B}[symChoose("idr", 3)]
@@ -32,11 +34,14 @@ func c01Tree() *V_C {
 		c.Em = YANGEmpty(symBool("em"))
 	case 4: // leaf-list
 		n := symChoose("lln", 3)
+		if n == 0 && symBool("ll_empty_nonnil") {
+			c.Ll = []string{} // a set but empty leaf-list
+		}
 		for i := 0; i < n; i++ {
-			c.Ll = append(c.Ll, symStringN(symName("ll", i), 1))
+			c.Ll = append(c.Ll, c01S(symName("ll", i), 1))
 		}
 	case 5: // string-keyed list with nested container
-		k := symStringN("ks", 1)
+		k := c01S("ks", 1)
 		kk := k
 		v := symUint16("ksv")
 		x := symInt8("x")
@@ -46,12 +51,13 @@ func c01Tree() *V_C {
 		i2 := id
 		c.Ki = map[int64]*V_C_Ki{id: {Id: &i2}}
 	case 7: // struct-keyed list (string, enum)
-		k := V_C_Km_Key{Name: symStringN("km", 1), Col: V_Colour_GREEN}
+		k := V_C_Km_Key{Name: c01S("km", 1), Col: V_Colour_GREEN}
 		n := k.Name
 		c.Km = map[V_C_Km_Key]*V_C_Km{k: {Name: &n, Col: k.Col}}
 	case 8: // ordered list of two
 		c.Ol = &V_C_Ol_OrderedMap{}
-		k1, k2 := symStringN("ol1", 1), symStringN("ol2", 1)
+		k1, k2 := symString("ol1", 1), c01S("ol2", 1) // the first key may be the empty string
+		symAssume(utf8.ValidString(k1))
 		symAssume(k1 != k2)
 		e1, _ := c.Ol.AppendNew(k1)
 		c.Ol.AppendNew(k2)
@@ -59,7 +65,7 @@ func c01Tree() *V_C {
 		e1.Val = &v
 	case 9: // unions
 		if symBool("unstr") {
-			c.Un = UnionString(symStringN("un", 2))
+			c.Un = UnionString(c01S("un", 2))
 		} else {
 			c.Un = UnionUint16(symUint16("un16"))
 		}
@@ -67,7 +73,7 @@ func c01Tree() *V_C {
 		c.Pc = &V_C_Pc{}
 	case 10: // uint64 in config false container, unkeyed list
 		cnt := symUint64("cnt")
-		n := symStringN("uln", 1)
+		n := c01S("uln", 1)
 		c.St = &V_C_St{Counter: &cnt, Ul: []*V_C_St_Ul{{Name: &n}}}
 	case 11: // bool+uint32 keyed list
 		f, u := symBool("flag"), symUint32("num")
@@ -91,7 +97,19 @@ func H_C01_roundtrip() {
 	back := &V_C{}
 	err = ytypes.Unmarshal(SchemaTree["V_C"], back, j)
 	symAssert(err == nil, "Unmarshal rejects JSON that ygot rendered")
+	emptyLl := c.Ll != nil && len(c.Ll) == 0
+	if len(c.Ll) == 0 {
+		c.Ll, back.Ll = nil, nil // a leaf-list without values does not exist in the data tree
+	}
 	symAssert(reflect.DeepEqual(c, back), "the round trip changes the tree")
+	symKnown("C01-empty-leaflist", emptyLl)
 	j2, err := ygot.ConstructIETFJSON(back, cfg)
 	symAssert(err == nil && reflect.DeepEqual(j, j2), "re-rendering the result gives different JSON")
+}
+
+// c01S: a string leaf/key value of exactly n bytes that is valid UTF-8 (YANG strings are Unicode).
+func c01S(name string, n int) string {
+	s := symStringN(name, n)
+	symAssume(utf8.ValidString(s))
+	return s
 }
